@@ -6,7 +6,7 @@ that a new version of harness/props/Cxx.py can be dropped in without losing them
 EXTRA_TARGETS = {
     'C01': ['XdocModel.Proofs.Compose'],
     'C07': ['XdocModel.Proofs.GoogleMargin', 'XdocModel.Proofs.PackageNodup', 'XdocModel.Proofs.PackageOnce'],
-    'C04': ['XdocModel.Proofs.Compose2'],
+    'C04': ['XdocModel.Proofs.Compose2', 'XdocModel.Proofs.RequiresMulti'],
     'C08': ['XdocModel.Proofs.Compose', 'XdocModel.Proofs.Compose2'],
     'C10': ['XdocModel.Proofs.Compose2', 'XdocModel.Proofs.PackageNodup', 'XdocModel.Proofs.PackageOnce'],
     'C11': ['XdocModel.Proofs.Compose2'],
@@ -26,7 +26,8 @@ EXTRA_THEOREMS = {
             ('Xdoc.Compose.tiled_needs_facts_in_range', 'witness'), ('Xdoc.Compose.lineno_counts_splitlines_witness', 'witness')],
     'C18': [('Xdoc.Compose.parsed_parts_plain', 'full'), ('Xdoc.Compose.parsed_parts_clean', 'partial'),
             ('Xdoc.Compose.reparse_labels_of_parse', 'partial')],
-    'C04': [('Xdoc.Compose2.cli_defaults_are_leading_block', 'full'), ('Xdoc.Compose2.default_options_run_like_leading_block', 'full')],
+    'C04': [('Xdoc.Compose2.cli_defaults_are_leading_block', 'full'), ('Xdoc.Compose2.default_options_run_like_leading_block', 'full'),
+            ('Xdoc.C04.effects_requires_total', 'full'), ('Xdoc.C04.requires_block_every_condition', 'full')],
     'C11': [('Xdoc.Compose2.defaults_are_leading_block', 'full'), ('Xdoc.Compose2.default_options_every_run', 'full'),
             ('Xdoc.Compose2.default_options_every_run_outcome', 'full'), ('Xdoc.Compose2.unknown_option_order', 'witness')],
     'C10': [('Xdoc.Compose2.entriesOf_returns', 'full'), ('Xdoc.Compose2.tally_adds_up_unconditional', 'full'),
@@ -90,7 +91,9 @@ EXTRA_TEXT = {
             "ADDED (Proofs/PackageNodup.lean): `packageModpaths_nodup` — `package_modpaths` lists every path of a package tree at most ONCE, for every tree whose listings do not repeat a "
             "name, every depth and option setting (the membership theorems say which paths; this one says once); the walk of round-4 seed C10-4B is evaluated in the kernel as a violation; `package_callnames_nodup` (Proofs/PackageOnce.lean) composes it with `identifiers_nodup`: a "
             "(module path, callname) pair is collected once over the whole package, for every tree and every module contents."),
-    'C04': (" ADDED (Proofs/Compose2.lean, with C11): `default_options_run_like_leading_block` — a run with default options equals, part for part (indices shifted "
+    'C04': (" ADDED (Proofs/RequiresMulti.lean): `requires_block_every_condition` — after a block `+REQUIRES(c1, …, cn)` the pending set is the old one plus EVERY unmet ci, after "
+            "`-REQUIRES(…)` the old one minus every unmet ci, for every list of conditions (round-5 seed C04-5A kept only the last one). "
+            "ADDED (Proofs/Compose2.lean, with C11): `default_options_run_like_leading_block` — a run with default options equals, part for part (indices shifted "
             "by one), the run of the same doctest with those options written as a leading block directive."),
     'C10': (" ADDED (Proofs/PackageNodup.lean): `packageModpaths_nodup` — for a PACKAGE target the module list the runner iterates over has no duplicate, for every directory tree "
             "(so no doctest of a package is collected, listed or run twice through the walk; observed end to end by the package-level suite). "
